@@ -121,7 +121,64 @@ def main(table_path: str, out_path: str) -> None:
                         viol.append({"clause": "C17_LandsInBox", "signature": sig + f" form={fname}", "detail": {"shape": str(rr.shape)}})
                         continue
                     laws(c, x_f, float(rr[0]), f" form={fname}")
-    json.dump({"evaluations": n_eval, "distinct": len(distinct), "lattice_cases": len(cases),
+    # ---- the repair as the operators apply it (C01: "every point at which the objective is invoked lies inside the box").
+    # GaussianMutation (sea.py:25-34) repairs parent + noise with the toroidal method and evaluates the result; the noise
+    # is forced so that parent + noise is the case's input.  The operator is created with a small strength and - like
+    # SEAWithAdaptiveMutation does - given a larger one afterwards.
+    from unittest import mock
+
+    from pyhms.core.population import Population
+    from pyhms.core.problem import FunctionProblem
+    from pyhms.demes.single_pop_eas.sea import GaussianMutation
+    n_op = 0
+    for (m, lo, hi), cs in sorted(groups.items()):
+        if m != "toroidal":
+            continue
+        for cname, scale, off in CONCRETISATIONS:
+            if cname not in ("unit", "decimal", "tiny", "third"):
+                continue
+            lo_f, hi_f = conc(lo, 0, scale, off), conc(hi, 0, scale, off)
+            if not lo_f < hi_f:
+                continue
+            lo2, hi2 = off - 7 * scale, off + 11 * scale
+            y = off + 2 * scale
+            bounds = np.array([[lo_f, hi_f], [lo2, hi2]], dtype=np.float64)
+            Rf = Fraction(hi_f) - Fraction(lo_f)
+            seen = []
+            prob = FunctionProblem(lambda x, seen=seen: (seen.append(np.array(x, dtype=np.float64)), 0.0)[1], bounds=bounds, maximize=False)
+            for c in cs:
+                x_f = conc(c["xk"], c["xd"], scale, off)
+                parent = np.array([[lo_f, y]], dtype=np.float64)
+                noise = np.array([[x_f - lo_f, 0.0]])
+                x_act = float(parent[0, 0] + noise[0, 0])
+                mut = GaussianMutation(1e-3 * (hi_f - lo_f), bounds, 1.0)
+                mut.stds = np.full(2, 2.0 * (hi_f - lo_f))          # strength raised after construction
+                pop = Population(parent.copy(), np.array([0.0]), prob)
+                del seen[:]
+                n_op += 1
+                try:
+                    with mock.patch("numpy.random.normal", return_value=noise.copy()), \
+                         mock.patch("numpy.random.rand", return_value=np.zeros((1, 2))):
+                        out = mut(pop)
+                except Exception as ex:  # noqa: BLE001
+                    viol.append({"clause": "C17_LandsInBox", "signature": f"GaussianMutation box=({lo_f!r},{hi_f!r}) x={x_act!r} conc={cname}",
+                                 "detail": {"exception": repr(ex)[:200]}})
+                    continue
+                r = float(out.genomes[0, 0])
+                sig = f"operator=GaussianMutation(toroidal) box=({lo_f!r},{hi_f!r}) parent+noise={x_act!r} lattice=(lo={lo},hi={hi},x=<<{c['xk']},{c['xd']}>>) conc={cname}"
+                det = {"result": repr(r)}
+                if not (lo_f <= r <= hi_f and lo2 <= float(out.genomes[0, 1]) <= hi2):
+                    viol.append({"clause": "C17_LandsInBox", "signature": sig, "detail": det})
+                for pt in seen:
+                    if not (np.all(pt >= bounds[:, 0]) and np.all(pt <= bounds[:, 1])):
+                        viol.append({"clause": "C01_OperatorEvaluatesInBox", "signature": sig, "detail": {"evaluated": repr(pt.tolist())}})
+                ulp = math.ulp(max(abs(x_act), abs(lo_f), abs(hi_f)))
+                nranges = abs(c["xk"] - lo) // (hi - lo) + 1
+                diff = Fraction(r) - Fraction(x_act)
+                if abs(diff - round(diff / Rf) * Rf) > Fraction((16 + 8 * nranges) * ulp):
+                    viol.append({"clause": "C17_MatchesDefinition", "signature": sig, "detail": det})
+    n_eval += n_op
+    json.dump({"evaluations": n_eval, "distinct": len(distinct), "lattice_cases": len(cases), "operator_cases": n_op,
                "violations": viol, "samples": samples}, open(out_path, "w"))
 
 
